@@ -653,6 +653,16 @@ pub fn execute(sc: &Scenario, verbose: bool) -> RunOut {
     if text.chars().any(|c| c.len_utf8() > 1) {
         out.stats.inc("probe.multibyte_text");
     }
+    {
+        // reach of the rarer reader shapes (serialized form of the type description is searched: cheap and exact enough)
+        let tys = format!("{:?}", sc.ty);
+        if tys.contains("SpannedKey(") {
+            out.stats.inc("probe.spanned_non_string_key_type");
+        }
+        if tys.contains("Tuple(") && text.contains("0 =") {
+            out.stats.inc("probe.tuple_type_with_positional_keys_in_document");
+        }
+    }
     if sc.only.is_empty() || sc.wants("walk") {
         let r = catch_unwind(AssertUnwindSafe(|| {
             let mut o = RunOut::default();
